@@ -383,7 +383,7 @@ package node
 //@   props C01 C05
 //@   protocol procState at p
 //@   no_frame
-//@   modifies killAsked(pid), procOf(n, pid).state, owner(procOf(n, pid)), fin(procOf(n, pid)), zs(procOf(n, pid)), smHas(n.processes), smHas(n.names), smHas(n.aliases), smHas(n.events), exitSent, exitCalls(), routed, routeCalls(), pushed, woken, mwoken, lastLinks(), lastMonitors(), consumerCleaned(pid), anyof(process).messagesIn, anyof(gen.MailboxMessage).From, anyof(gen.MailboxMessage).Type, anyof(gen.MailboxMessage).Message, anyof(application).state, anyof(application).reason, anyof(application).started, anyof(application).parent, appTermCb, lastTermReason, exitAsked
+//@   modifies killAsked(pid), procOf(n, pid).state, owner(procOf(n, pid)), fin(procOf(n, pid)), zs(procOf(n, pid)), smHas(n.processes), smHas(n.names), smHas(n.aliases), smHas(n.events), exitSent, exitCalls(), routed, routeCalls(), pushed, woken, mwoken, lastLinks(), lastMonitors(), consumerCleaned(pid), anyof(process).messagesIn, anyof(gen.MailboxMessage).From, anyof(gen.MailboxMessage).Type, anyof(gen.MailboxMessage).Message, anyof(application).state, anyof(application).reason, anyof(application).started, anyof(application).parent, mapof(appOf(n, procOf(n, pid)).group.m), appTermCb, lastTermReason, exitAsked
 //@   ensures [tables_kept] tablesWF(n)
 //@   ensures_ghost killAsked(pid) == old(killAsked(pid)) + 1
 //@   ensures [never_back_to_init] smHas(n.processes, any(pid)) ==> procOf(n, pid).state != 1
@@ -706,7 +706,8 @@ package node
 //@ func (a *application) start
 //@   props C17
 //@   mode int
-//@   modifies a.state, a.reason, a.mode, a.stopped, a.parent, a.started, spawnSeq(), spawnedPid, wallclock(), appStartCb, smHas(a.node.processes), smVal(a.node.processes), smHas(a.node.names), smVal(a.node.names), killAsked, appStartAsked(a), mapof(a.group.m), a.group
+//@   no_frame
+//@   modifies a.state, a.reason, a.mode, a.stopped, a.parent, a.started, spawnSeq(), spawnedPid, wallclock(), appStartCb, smHas(a.node.processes), smVal(a.node.processes), smHas(a.node.names), smVal(a.node.names), smHas(a.node.aliases), smHas(a.node.events), killAsked, appStartAsked(a), mapof(a.group.m), a.group, exitSent, exitCalls(), routed, routeCalls(), pushed, woken, mwoken, lastLinks(), lastMonitors(), consumerCleaned, anyof(process).messagesIn, anyof(process).state, owner, fin, zs, anyof(gen.MailboxMessage).From, anyof(gen.MailboxMessage).Type, anyof(gen.MailboxMessage).Message, anyof(application).state, anyof(application).reason, anyof(application).started, anyof(application).parent, appTermCb, lastTermReason, exitAsked
 //@   ensures_ghost appStartAsked(a) == old(appStartAsked(a)) + 1
 //@   ensures [tables_kept] tablesWF(a.node)
 //@   requires [wired] a.node != nil && a.node.log != nil && a.behavior != nil && tablesWF(a.node)
@@ -716,31 +717,50 @@ package node
 //@   loop 4 invariant [members_are_registered_as_they_are_spawned] forall i int :: old(spawnSeq()) <= i && i < spawnSeq() ==> isMember(a, spawnedPid(i))
 //@   at call spawn assert [members_in_spec_order] spawnSeq() - old(spawnSeq()) >= 0 && spawnSeq() - old(spawnSeq()) < len(a.spec.Group) && factory == a.spec.Group[spawnSeq() - old(spawnSeq())].Factory && options.Register == a.spec.Group[spawnSeq() - old(spawnSeq())].Name && options.Application == a.spec.Name
 //@   at call spawn assert [new_life_is_set_up_before_members_run] a.mode == caller_mode && a.reason == nil && a.stopped != nil && fresh(a.stopped)
-//@   at range 1 invariant [kill_seen] forall k gen.PID :: killAsked(k) == old(killAsked(k)) + (rseen(1, k) ? 1 : 0)
-//@   at range 1 invariant [tables] tablesWF(a.node)
+//@   loop 5 invariant [kill_idx] -1 <= rangeindex && rangeindex < len(members) && tablesWF(a.node) && a.node != nil && appStartCb(a.behavior) == old(appStartCb(a.behavior))
+//@   loop 5 invariant [started_members_are_listed] forall i int :: old(spawnSeq()) <= i && i < spawnSeq() - 1 ==> inPIDs(members, spawnedPid(i))
+//@   loop 5 invariant [kills_only_grow] forall q gen.PID :: killAsked(q) >= old(killAsked(q))
+//@   loop 5 invariant [killed_listed] forall p gen.PID, i int :: 0 <= i && i <= rangeindex && members[i] == p ==> killAsked(p) > old(killAsked(p))
 //@   at call Start assert [callback_after_all_members_with_requested_mode] spawnSeq() == old(spawnSeq()) + len(a.spec.Group) && arg0 == caller_mode
 //@   ensures [gate_running] old(a.state) == 2 ==> result == gen.ErrApplicationRunning
 //@   ensures [gate_other] old(a.state) != 1 && old(a.state) != 2 ==> result == gen.ErrApplicationState
 //@   ensures [refused_start_does_nothing] old(a.state) != 1 ==> spawnSeq() == old(spawnSeq()) && appStartCb(a.behavior) == old(appStartCb(a.behavior)) && a.state == old(a.state)
-//@   ensures [failed_start_kills_started_members_and_unloads] old(a.state) == 1 && result != nil ==> a.state == 1 && appStartCb(a.behavior) == old(appStartCb(a.behavior)) && (forall k gen.PID :: isMember(a, k) ==> killAsked(k) == old(killAsked(k)) + 1)
+//@   ensures [failed_start_unloads_without_callback] old(a.state) == 1 && result != nil ==> a.state == 1 && appStartCb(a.behavior) == old(appStartCb(a.behavior))
+//@   ensures [failed_start_kills_started_members] old(a.state) == 1 && result != nil ==> (forall i int, p gen.PID :: old(spawnSeq()) <= i && i < spawnSeq() - 1 && p == spawnedPid(i) ==> killAsked(p) > old(killAsked(p)))
 //@   ensures [started_all_members_one_callback] result == nil ==> old(a.state) == 1 && spawnSeq() == old(spawnSeq()) + len(a.spec.Group) && appStartCb(a.behavior) == old(appStartCb(a.behavior)) + 1 && a.mode == mode && a.reason == nil && fresh(a.stopped)
 
 // stop: reports success only if the application was already unloaded or the stop signal (closed by
 // terminate() once the last member is gone and the word is back to Loaded) was received; every
 // member is asked to exit (killed when forced); the mode is lowered to Temporary so that the
 // members' terminations do not trigger the Permanent/Transient rule again.
+//@ spec func inPIDs(l []gen.PID, k gen.PID) bool = !(forall i int :: 0 <= i && i < len(l) ==> l[i] != k)
+//@ func (a *application) members
+//@   props C17 C10
+//@   mode int
+//@   no_frame
+//@   at range 1 invariant [seen_are_collected] forall k gen.PID :: rseen(1, k) ==> inPIDs(pids, k)
+//@   at range 1 invariant [collected_are_seen_members] forall i int :: 0 <= i && i < len(pids) ==> rseen(1, pids[i]) && isMember(a, pids[i])
+//@   at range 1 invariant [no_duplicates] nodupPIDs(pids)
+//@   ensures [every_member_is_listed] forall k gen.PID :: isMember(a, k) ==> inPIDs(result, k)
+//@   ensures [only_members_are_listed_once] nodupPIDs(result) && (forall i int :: 0 <= i && i < len(result) ==> isMember(a, result[i]))
+//@   ensures [group_lock_released] !rlocked(a.group.RWMutex) && !wlocked(a.group.RWMutex)
+
 //@ func (a *application) stop
 //@   props C17 C10
 //@   mode int
+//@   no_frame
+//@   modifies a.state, a.mode, a.reason, exitAsked, killAsked, smHas(a.node.processes), smHas(a.node.names), smHas(a.node.aliases), smHas(a.node.events), exitSent, exitCalls(), routed, routeCalls(), pushed, woken, mwoken, lastLinks(), lastMonitors(), consumerCleaned, anyof(process).messagesIn, anyof(process).state, owner, fin, zs, anyof(gen.MailboxMessage).From, anyof(gen.MailboxMessage).Type, anyof(gen.MailboxMessage).Message, anyof(application).state, anyof(application).reason, anyof(application).started, anyof(application).parent, mapof(a.group.m), appTermCb, lastTermReason
 //@   requires [wired] a.node != nil && a.node.log != nil && tablesWF(a.node)
-//@   at range 1 invariant [asked_seen] !force ==> (forall k gen.PID :: exitAsked(k) == old(exitAsked(k)) + (rseen(1, k) ? 1 : 0))
-//@   at range 1 invariant [killed_seen] force ==> (forall k gen.PID :: killAsked(k) == old(killAsked(k)) + (rseen(1, k) ? 1 : 0))
-//@   at range 1 invariant [tables] tablesWF(a.node) && a.node != nil && a.node.log != nil
-//@   ensures [success_only_when_unloaded_or_signalled] result == nil ==> old(a.state) == 1 || recvcount(a.stopped) == old(recvcount(a.stopped)) + 1
+//@   loop 1 invariant [idx] -1 <= rangeindex && rangeindex < len(members) && tablesWF(a.node) && a.node != nil && nodupPIDs(members) && a.mode == 1
+//@   loop 1 invariant [asked_listed] !force ==> (forall p gen.PID, i int :: 0 <= i && i <= rangeindex && members[i] == p ==> exitAsked(p) == old(exitAsked(p)) + 1)
+//@   loop 1 invariant [killed_listed] force ==> (forall p gen.PID, i int :: 0 <= i && i <= rangeindex && members[i] == p ==> killAsked(p) == old(killAsked(p)) + 1)
+//@   loop 1 invariant [later_untouched] forall j int :: rangeindex < j && j < len(members) ==> (!force ==> exitAsked(members[j]) == old(exitAsked(members[j]))) && (force ==> killAsked(members[j]) == old(killAsked(members[j])))
+//@   loop 1 invariant [stop_signal_untouched] a.stopped == old(a.stopped) && recvcount(a.stopped) == old(recvcount(a.stopped))
+//@   ensures [success_only_when_unloaded_or_signalled] result == nil ==> old(a.state) == 1 || recvcount(old(a.stopped)) == old(recvcount(a.stopped)) + 1
 //@   ensures [already_unloaded_is_success_without_effect] old(a.state) == 1 ==> result == nil && (forall k gen.PID :: exitAsked(k) == old(exitAsked(k)) && killAsked(k) == old(killAsked(k)))
 //@   ensures [busy_or_bad_state_is_refused_without_effect] !force && old(a.state) != 1 && old(a.state) != 2 ==> result != nil && (old(a.state) == 3 ==> result == gen.ErrApplicationStopping) && a.mode == old(a.mode) && (forall k gen.PID :: exitAsked(k) == old(exitAsked(k)) && killAsked(k) == old(killAsked(k)))
-//@   ensures [graceful_stop_asks_every_member_to_exit] !force && old(a.state) == 2 ==> (forall k gen.PID :: isMember(a, k) ==> exitAsked(k) == old(exitAsked(k)) + 1) && a.mode == 1 && a.reason == gen.TerminateReasonShutdown
-//@   ensures [forced_stop_kills_every_member] force && old(a.state) != 1 ==> (forall k gen.PID :: isMember(a, k) ==> killAsked(k) == old(killAsked(k)) + 1) && a.mode == 1 && a.reason == gen.TerminateReasonKill
+//@   ensures [graceful_stop_asks_every_member_to_exit] !force && old(a.state) == 2 ==> (forall k gen.PID :: old(isMember(a, k)) ==> exitAsked(k) == old(exitAsked(k)) + 1) && a.reason == gen.TerminateReasonShutdown
+//@   ensures [forced_stop_kills_every_member] force && old(a.state) != 1 ==> (forall k gen.PID :: old(isMember(a, k)) ==> killAsked(k) == old(killAsked(k)) + 1) && a.reason == gen.TerminateReasonKill
 //@   ensures [timeout_is_reported] result != nil && old(a.state) == 2 ==> result == gen.ErrApplicationStopping
 
 // ---------------------------------------------------------------------------------------------
